@@ -2,7 +2,8 @@
 
 Protocol obligations which, together with the kernel's atomic compare-and-block (assumed), imply the property:
 R1  the value handed to FUTEX_WAIT as "expected" is 0 on that path (the count just observed), so a post between the load and the wait makes the wait return at once;
-R2  P returns success only through a successful CAS count -> count-1 with count >= 1; the count is otherwise written only by V's CAS +1 and by init;
+R2  P returns success only through a successful CAS count -> count-1 with count >= 1, and never returns a failure (ETIMEDOUT) on a path that
+    performed that CAS (a consumed post is not reported as a timeout); the count is otherwise written only by V's CAS +1 and by init;
 R3  the timed P defines ETIMEDOUT only under (wait result = -1 and errno = ETIMEDOUT and deadline <= now);
 R4  V increments by CAS and then issues FUTEX_WAKE on every path on which the count it found may have been 0 (a sleeper can be blocked only then);
 R5  the timeout pointer is NULL exactly on the path where the deadline compared equal to nsync_time_no_deadline."""
@@ -111,6 +112,15 @@ def run(ctx, rep):
                     if not ok:
                         rep.violate(Violation('C12.R2', _where_fn(mod.func(name)), '%s can return success without having decremented the count by a successful CAS (a wait would succeed without a post)' % name,
                                               site='%s/success-without-cas' % name))
+                else:
+                    # a failure return (ETIMEDOUT) must not have consumed a post: the poster's V is spent, nobody will post again for it,
+                    # and the caller treats the wait as timed out (lost post)
+                    took = x.ghost.get(('flag', 'dec')) == 1
+                    rep.instance('C12.R2', '%s: return %r, count decremented on this path: %s' % (name, rv, took))
+                    rep.oblig('C12.R2', not took)
+                    if took:
+                        rep.violate(Violation('C12.R2', _where_fn(mod.func(name)), '%s can return %r after having decremented the count by a successful CAS: the post is consumed but the wait is reported as timed out, so the post is lost' % (name, rv),
+                                              site='%s/failure-after-cas' % name))
             elif name == 'nsync_mu_semaphore_v':
                 old = x.ghost.get(('inc_old',))
                 from ..symex import is_expr, eval_tree
